@@ -58,8 +58,6 @@ struct LfoBook {
 	/// all three settings fixed at creation and no command consumed so far: (f, a, o, phase0 in cycles)
 	fixed: Option<(f64, f64, f64, f64)>,
 	elapsed: f64,
-	/// the code's phase recurrence (classification only)
-	phase: f64,
 	/// amplitude is `Fixed(0.0)` and was never commanded: value() == offset parameter
 	amp_zero: bool,
 	/// the offset is (now, idle) linked to modulator j through this mapping
@@ -417,18 +415,16 @@ fn callback(s: &mut Sys, frames: usize, l: &str, out: &mut Out) {
 				Book::Lfo(b) => {
 					if let Some((f, a, o, p0)) = b.fixed {
 						b.elapsed += dtc;
-						b.phase += dtc * f;
-						b.phase %= 1.0;
 						let slack = 1e-12 * (1.0 + a.abs() + o.abs());
 						if (v - o).abs() > a.abs() + slack {
-							let class = if b.phase < 0.0 { "negphase" } else { "phase>=0" };
 							ofail(out, &mut reported, 
 								"sys_lfo_range",
-								format!("{} :: modulator {} {} wf={}", l, k, class, wf_name(b.waveform)),
+								format!("{} :: modulator {} wf={}", l, k, wf_name(b.waveform)),
 							);
 						}
 						let cycles = p0 + f * b.elapsed;
-						if f >= 0.0 && p0 >= 0.0 && cycles < 1e6 {
+						// negative frequencies / phases are ordinary inputs: Euclidean fractional part below
+						if cycles.abs() < 1e6 {
 							let p = cycles - cycles.floor();
 							if let Some(w) = reference_wave(b.waveform, p) {
 								let expect = o + a * w;
@@ -579,7 +575,6 @@ pub fn run(ops: &[String]) -> Vec<String> {
 								waveform,
 								fixed,
 								elapsed: 0.0,
-								phase: ph / TAU,
 								amp_zero: matches!(a, Value::Fixed(x) if x == 0.0),
 								follow,
 								pending: LfoPending::default(),
